@@ -264,7 +264,27 @@ def rule_writeback(run):
     _roles.run_writeback_rule(run, "F-WRITEBACK")
 
 
-RULES = [rule_roles, rule_usage, rule_local, rule_views, rule_writeback]
+def rule_names(run):
+    from . import c06
+    c06.rule_names(run)       # two objects never share one (case-insensitive) VHDL name: a shared name merges their drivers
+
+
+def rule_buffers(run):
+    from . import c06
+    c06.rule_buffers(run)     # instances drive the buffer of an output port, never the port next to its buffer assignment
+
+
+def rule_temporaries_local(run):
+    from . import c08
+    c08.rule_leaf(run)        # a temporary read in a context that did not write it is rejected (no exemption)
+
+
+def rule_refspec(run):
+    from . import c08
+    c08.rule_refspec_reads(run)
+
+
+RULES = [rule_roles, rule_usage, rule_local, rule_views, rule_writeback, rule_names, rule_buffers, rule_temporaries_local, rule_refspec]
 LEVEL = "other"
 EXPLANATION = (
     "The single-driver guarantee rests on hand-written access flags and one usage check; both are decided for all "
